@@ -10,3 +10,6 @@ void monitor_probes(std::map<std::string, long> &into);
 long monitor_first_zero_col();                              // smallest 0-based column with an all-zero candidate set in the current op, or -1    // add and reset probe counters
 const std::vector<long> &monitor_stack_marks();               // caller-workspace usage after each stack operation of the current op
 long monitor_init_events();                                    // factorizations actually started in the current op
+// called from the INIT event with true when the preset slot layout skipped a relaxed supernode because its first column lies
+// strictly inside a supernode of the bounding partition (precondition of finding D27)
+extern void (*monitor_layout_cb)(bool relaxed_snode_inside_h_supernode);
